@@ -91,6 +91,10 @@ func UserFuns() []*Fun {
 		mk("ov", []*Ty{TList(a)}, TStr, false, func(_ *Ty, x []Arg) *V { return VStr("ov/list:" + strconv.Itoa(len(x[0].V.L))) }),
 		mk("ov", []*Ty{a}, TStr, false, func(_ *Ty, x []Arg) *V { return VStr("ov/any") }),
 		mk("ov", []*Ty{TStr}, TStr, false, func(_ *Ty, x []Arg) *V { return VStr("ov/str") }),
+		// a host function registered under the exact signature of a built-in
+		// (replaces it), and a user overload of the built-in operator '!'
+		mk("round", []*Ty{TNum}, TNum, false, func(_ *Ty, x []Arg) *V { return VNum(x[0].V.N*10 + 1) }),
+		mk("!", []*Ty{TStr}, TBool, false, func(_ *Ty, x []Arg) *V { return VBool(x[0].V.S == "") }),
 		// wrap :: a -> list[a] ; pair :: a -> a -> list[a]
 		mk("wrap", []*Ty{a}, TList(a), false, func(_ *Ty, x []Arg) *V { return &V{T: TList(x[0].V.T), L: []*V{x[0].V}} }),
 		mk("pair", []*Ty{a, a}, TList(a), false, func(_ *Ty, x []Arg) *V {
